@@ -680,7 +680,58 @@ func (e *xstore) storeObs() []string {
 			ids = append(ids, i)
 		}
 	}
-	return append([]string{"b:" + showInts(ids)}, e.lastSweep...)
+	out := []string{"b:" + showInts(ids)}
+	if e.kind == "oci" {
+		// the index.json on disk right now: which contents it lists, which of them under a name
+		listed, named, err := e.indexEntries()
+		if err != nil {
+			out = append(out, "i:err", "t:err")
+		} else {
+			out = append(out, "i:"+showInts(listed), "t:"+showInts(named))
+		}
+	}
+	return append(out, e.lastSweep...)
+}
+
+// sMarker: the observe operation of the store-level model: "S" also compares index.json.
+func (e *xstore) sMarker() string {
+	if e.kind == "oci" {
+		return "S"
+	}
+	return "s"
+}
+
+// indexEntries reads index.json with the harness's own decoder: distinct listed node ids and
+// the ones listed with a ref.name annotation.
+func (e *xstore) indexEntries() (listed, named []int, err error) {
+	data, err := os.ReadFile(filepath.Join(e.root, "index.json"))
+	if err != nil {
+		return nil, nil, err
+	}
+	var ix struct {
+		Manifests []ocispec.Descriptor `json:"manifests"`
+	}
+	if err := json.Unmarshal(data, &ix); err != nil {
+		return nil, nil, err
+	}
+	l, n := map[int]bool{}, map[int]bool{}
+	for _, d := range ix.Manifests {
+		id, ok := e.u.ids[keyOf(d)]
+		if !ok {
+			return nil, nil, fmt.Errorf("index.json names unknown content %s", d.Digest)
+		}
+		l[id] = true
+		if d.Annotations[ocispec.AnnotationRefName] != "" {
+			n[id] = true
+		}
+	}
+	for i := range l {
+		listed = append(listed, i)
+	}
+	for i := range n {
+		named = append(named, i)
+	}
+	return listed, named, nil
 }
 
 func (e *xstore) sweep(st content.PredecessorFinder, exister content.ReadOnlyStorage, what string, mops *[]string, toks *[]string) {
@@ -972,6 +1023,7 @@ func (e *xstore) do(op string) {
 			return
 		}
 		e.ociSt.AutoSaveIndex = arg == "on"
+		wasOff := e.autoSaveOff
 		e.autoSaveOff = arg != "on"
 		if e.autoSaveOff {
 			e.sops = append(e.sops, "Y0")
@@ -979,6 +1031,11 @@ func (e *xstore) do(op string) {
 			e.sops = append(e.sops, "Y1")
 		}
 		run.Count("autosave-" + arg)
+		if wasOff && !e.autoSaveOff {
+			// switching the flag back on does not write the index: the caller saves what
+			// accumulated while it was off
+			e.do("saveindex")
+		}
 		return
 	case "saveindex":
 		if e.ociSt == nil {
@@ -992,7 +1049,11 @@ func (e *xstore) do(op string) {
 		return
 	case "foreign":
 		if e.ociSt != nil && e.autoSaveOff {
+			// the layout is closed properly before somebody else rewrites its index; the store that
+			// opens it afterwards starts with AutoSaveIndex on
 			e.do("saveindex")
+			e.autoSaveOff = false
+			e.sops = append(e.sops, "Y1")
 		}
 		// index.json rewritten the way other tools write a layout (and the way oras-go left it
 		// after GC before 34cefcb): only the tagged manifests and the manifests without a stored
@@ -1242,7 +1303,7 @@ func (e *xstore) do(op string) {
 				}
 				e.script[len(e.script)-1] = "gc"
 				e.sweep(e.st, e.st, "after failed gc", &e.mops, &e.toks)
-				e.sops = append(e.sops, "S")
+				e.sops = append(e.sops, e.sMarker())
 				e.stoks = append(e.stoks, e.storeObs()...)
 				return
 			}
@@ -1284,8 +1345,24 @@ func (e *xstore) do(op string) {
 				}
 			}
 		}
-		// store-level model: the untagged manifests that survived are the ones gcIndex kept
-		// (as referrer roots or inside the rebuilt graph)
+		// store-level model: which untagged manifests gcIndex kept as roots.  With AutoSaveIndex on
+		// GC has just written index.json: its entries without a name are exactly those (plus the
+		// restored digest references, which the model adds itself).  Otherwise: the survivors.
+		if !e.autoSaveOff {
+			if listed, named, err := e.indexEntries(); err == nil {
+				isNamed := map[int]bool{}
+				for _, i := range named {
+					isNamed[i] = true
+				}
+				kept = nil
+				sort.Ints(listed)
+				for _, i := range listed {
+					if !isNamed[i] {
+						kept = append(kept, strconv.Itoa(i))
+					}
+				}
+			}
+		}
 		e.sops = append(e.sops, "G"+strings.Join(kept, "."))
 	case "reopen":
 		if e.ociSt == nil {
@@ -1357,7 +1434,7 @@ func (e *xstore) do(op string) {
 			run.Count("reopen-" + arg)
 			// store-level model: the history so far, then a reopen
 			sid := run.NewID()
-			sops := append(append([]string(nil), e.sops...), "O", "S")
+			sops := append(append([]string(nil), e.sops...), "O", e.sMarker())
 			stoks := append(append([]string(nil), e.stoks...), e.storeObs()...)
 			run.Case(sid, e.storeCaseLine(sops, "reopen"+arg+"-"+e.origin), strings.Join(stoks, " "))
 			return
@@ -1366,7 +1443,7 @@ func (e *xstore) do(op string) {
 	}
 	if !e.gcHung {
 		e.sweep(e.st, e.st, "after "+op, &e.mops, &e.toks)
-		e.sops = append(e.sops, "S")
+		e.sops = append(e.sops, e.sMarker())
 		e.stoks = append(e.stoks, e.storeObs()...)
 	}
 }
@@ -1662,7 +1739,10 @@ func genStore(r *common.Rand, kind string, origin string) {
 			}
 		case x < 87:
 			e.do("foreign")
-			e.do("reopen:" + common.Pick(r, []string{"dir", "dir", "dir", "fs", "tar"}))
+			e.do("reopen:dir") // the model's foreign step includes the reopen of the directory
+			if r.Chance(1, 3) {
+				e.do("reopen:" + common.Pick(r, []string{"fs", "tar"}))
+			}
 		default:
 			e.do("reopen:" + common.Pick(r, []string{"dir", "dir", "fs", "tar"}))
 		}
